@@ -837,6 +837,8 @@ impl<T: BinaryMatrix> IntermediateSymbolDecoder<T> {
 
             self.i += 1;
             self.u += r - 1;
+            #[cfg(all(raptorq_verif, feature = "std"))]
+            crate::verif::solver_marker(1, self.i, self.u, &self.c, &self.d, self.deferred_D_ops.len());
             #[cfg(debug_assertions)]
             self.first_phase_verify();
         }
@@ -1347,14 +1349,24 @@ impl<T: BinaryMatrix> IntermediateSymbolDecoder<T> {
 
         if let Some(x_elimination_ops) = self.first_phase() {
             self.A.disable_column_access_acceleration();
+            #[cfg(all(raptorq_verif, feature = "std"))]
+            crate::verif::solver_marker(11, self.i, self.u, &self.c, &self.d, self.deferred_D_ops.len());
 
             if !self.second_phase(&x_elimination_ops) {
                 return (None, None);
             }
+            #[cfg(all(raptorq_verif, feature = "std"))]
+            crate::verif::solver_marker(2, self.i, self.u, &self.c, &self.d, self.deferred_D_ops.len());
 
             self.third_phase(&x_elimination_ops);
+            #[cfg(all(raptorq_verif, feature = "std"))]
+            crate::verif::solver_marker(3, self.i, self.u, &self.c, &self.d, self.deferred_D_ops.len());
             self.fourth_phase();
+            #[cfg(all(raptorq_verif, feature = "std"))]
+            crate::verif::solver_marker(4, self.i, self.u, &self.c, &self.d, self.deferred_D_ops.len());
             self.fifth_phase(&x_elimination_ops);
+            #[cfg(all(raptorq_verif, feature = "std"))]
+            crate::verif::solver_marker(5, self.i, self.u, &self.c, &self.d, self.deferred_D_ops.len());
         } else {
             return (None, None);
         }
